@@ -39,6 +39,10 @@ m = {
          "kind_free_text": "baton scheduler over lock.hpp hooks; oracle = sequential re-execution search (linearizability)"},
         {"name": "E4 race", "path": "src/race.cpp", "serves_properties": [p for p in sorted(PROPS) if PROPS[p].get("driver") == "race"],
          "kind_free_text": "free-running threads under ThreadSanitizer: complete method-pair matrix + random programs"},
+        {"name": "E3 sched (TSan build)", "path": "src/sched.cpp", "serves_properties": ["C07"],
+         "kind_free_text": "the schedule engine compiled with -fsanitize=thread, scheduler hidden from TSan by annotations: race detection under harness-chosen schedules"},
+        {"name": "E1 seq (plain build)", "path": "src/twin.cpp", "serves_properties": ["C15"],
+         "kind_free_text": "sanitizer-free build of the sequential engine for the rr mass-survival runs at capacity up to 140000"},
     ],
     "checks": checks,
     "not_applicable": NOT_APPLICABLE,
